@@ -1,4 +1,5 @@
 import Csverif.Proofs.Engine
+import Csverif.Proofs.EngineXfer
 /-
 ENG — theorems about the decision tables of the sync engine (Model/Engine.lean; the model is tied to the real methods of
 cloudsync/sync/manager.py by harness/eng_decide.py, driver layer `engine`).
@@ -20,6 +21,10 @@ structure of the model (no enumeration needed: `Entry × Oracle` is finite up to
     `missing_punts_until_priority_4`, `successful_create_is_in_sync`
 11. shapes worth a look (kernel-checked witnesses): `mkdir_exists_error_is_finished`, `rename_fix_called_twice`
 12. the feature space as explicit lists with coverage: `Side.mem_all`, `Side.all_length`
+13. the TRANSFER LEAVES with the temp directory in the model (Model/EngineXfer.lean, namespace `CS.Engine.Xfer`):
+    `uploaded_bytes_have_current_hash`, `temp_reuse_only_same_hash`, `recorded_sync_hash_matches_uploaded_bytes`,
+    `recorded_sync_hash_after_create`, `failed_upload_keeps_entry_pending`, `failed_transfer_keeps_flag`,
+    `retry_after_reedit_uploads_new_bytes`, `finished_cleans_temps`, `make_temp_file_stable`
 -/
 namespace CS.Engine
 open CS.Hints (Ex OT Ign)
@@ -935,4 +940,275 @@ example : (checkRevivify Oracle.quiet { l := wSynced, r := wSynced, lLeR := true
 example : (embrace { Oracle.quiet with parentConfl := true } { l := wNewFile, r := Side.blank, lLeR := true, ign := .no, prio := 0 } .loc).out
     = .ret .requeue := by decide
 
+/-! ## 13. the transfer leaves (make_temp_file, download_changed, upload_synced, create_synced, clean_temps)
+
+Assumption of every theorem below that mentions `FS.wf`: the temp directories only contain files this engine wrote — a finished
+file under an md5 name holds the bytes that were downloaded for that name's hash, and random names in use are older than the next
+one drawn (Proofs/EngineXfer.lean).  `download_changed` re-establishes it (`downloadChanged_any`). -/
+namespace Xfer
+
+/-- UPLOADED BYTES HAVE THE CURRENT HASH (manager.py 1600-1605, 1238-1253 with 512-542, 646-653, 698-712).  On a temp directory
+    that only contains files this engine wrote (`FS.wf`), whenever the transfer part of `handle_hash_diff` /
+    `handle_path_change_or_creation` reaches the provider's `upload` / `create` (or hashes the temp file to adopt an existing
+    object), the bytes handed over are bytes downloaded for the side's CURRENT hash — never a temp file left by an attempt made
+    for an older hash. -/
+theorem uploaded_bytes_have_current_hash (o : XOracle) (fs : FS) (e : XEntry) (hw : fs.wf) (hd : e.c.otype ≠ .dir) :
+    (∀ t, XEff.sent t ∈ (transferUpload o fs e).effs → t = e.c.hash.getD 0) ∧
+    (∀ t, XEff.created t ∈ (transferCreate o fs e).effs ∨ XEff.hashData t ∈ (transferCreate o fs e).effs → t = e.c.hash.getD 0) := by
+  have hany := downloadChanged_any o fs e hw hd
+  have htrue := downloadChanged_true o fs e hw hd
+  have hnd : ∀ t, XEff.sent t ∉ (downloadChanged o fs e).effs ∧ XEff.created t ∉ (downloadChanged o fs e).effs ∧
+      XEff.hashData t ∉ (downloadChanged o fs e).effs := by
+    intro t; rcases hany.2.1 with h | h <;> simp [h]
+  constructor
+  · intro t
+    unfold transferUpload
+    simp only
+    cases hout : (downloadChanged o fs e).out with
+    | bool bb =>
+      cases bb with
+      | false => simp only; exact fun h => absurd h (hnd t).1
+      | true =>
+        obtain ⟨_, l, hent, hfind, _⟩ := htrue hout
+        have hb := (uploadSynced_bytes o (downloadChanged o fs e).fs (downloadChanged o fs e).ent l _ (by rw [hent]) hfind).1 t
+        simp only
+        split <;> simp only [List.mem_append] <;> intro h <;> rcases h with h | h
+        all_goals first
+          | exact absurd h (hnd t).1
+          | exact hb h
+    | code r => simp only; exact fun h => absurd h (hnd t).1
+    | unit => simp only; exact fun h => absurd h (hnd t).1
+    | raised x => simp only; exact fun h => absurd h (hnd t).1
+  · intro t
+    unfold transferCreate
+    simp only
+    cases hout : (downloadChanged o fs e).out with
+    | bool bb =>
+      cases bb with
+      | false => simp only; intro h; rcases h with h | h; exact absurd h (hnd t).2.1; exact absurd h (hnd t).2.2
+      | true =>
+        obtain ⟨_, l, hent, hfind, _⟩ := htrue hout
+        have hb := (createSynced_bytes o (downloadChanged o fs e).fs (downloadChanged o fs e).ent l _ (by rw [hent]) hfind).1 t
+        simp only [List.mem_append]
+        intro h
+        rcases h with (h | h) | (h | h)
+        · exact absurd h (hnd t).2.1
+        · exact hb (Or.inl h)
+        · exact absurd h (hnd t).2.2
+        · exact hb (Or.inr h)
+    | code r => simp only; intro h; rcases h with h | h; exact absurd h (hnd t).2.1; exact absurd h (hnd t).2.2
+    | unit => simp only; intro h; rcases h with h | h; exact absurd h (hnd t).2.1; exact absurd h (hnd t).2.2
+    | raised x => simp only; intro h; rcases h with h | h; exact absurd h (hnd t).2.1; exact absurd h (hnd t).2.2
+
+/-- TEMP REUSE ONLY FOR THE SAME HASH (manager.py 504-506, 520-522).  If `download_changed` of a non-folder returns True without
+    calling the provider, the file it reuses is named by the md5 of the side's CURRENT path and hash (and, the directory being
+    well-formed, holds the bytes of that hash). -/
+theorem temp_reuse_only_same_hash (o : XOracle) (fs : FS) (e : XEntry) (hw : fs.wf) (hd : e.c.otype ≠ .dir)
+    (h : (downloadChanged o fs e).out = .bool true) (hn : XEff.download ∉ (downloadChanged o fs e).effs) :
+    ∃ l p hh, (downloadChanged o fs e).ent.c.temp = some l ∧ e.c.path = some p ∧ e.c.hash = some hh ∧ l.name = .keyed p hh ∧
+      (downloadChanged o fs e).fs.find l false = some hh := by
+  obtain ⟨_, l, hent, hfind, hfx⟩ := downloadChanged_true o fs e hw hd h
+  rcases hfx with hfx | ⟨_, p, hh, hp, hhh, hname⟩
+  · rw [hfx] at hn; simp at hn
+  · exact ⟨l, p, hh, by rw [hent], hp, hhh, hname, by rw [hfind, hhh]; rfl⟩
+
+/-- RECORDED SYNC HASH MATCHES THE UPLOADED BYTES (manager.py 656-661 after 1601-1604).  After a successful upload the changed side's
+    `sync_hash` is its current hash, and the bytes the provider received were downloaded for exactly that hash. -/
+theorem recorded_sync_hash_matches_uploaded_bytes (o : XOracle) (fs : FS) (e : XEntry) (hw : fs.wf) (hd : e.c.otype ≠ .dir)
+    (hup : o.up = .ok) (hf : (transferUpload o fs e).out = .code .finished) :
+    (transferUpload o fs e).ent.c.syncHash = e.c.hash ∧ (transferUpload o fs e).ent.c.syncPath = e.c.path ∧
+    XEff.sent (e.c.hash.getD 0) ∈ (transferUpload o fs e).effs := by
+  have htrue := downloadChanged_true o fs e hw hd
+  unfold transferUpload at hf ⊢
+  simp only at hf ⊢
+  cases hout : (downloadChanged o fs e).out with
+  | bool bb =>
+    cases bb with
+    | false => simp [hout] at hf
+    | true =>
+      obtain ⟨_, l, hent, hfind, _⟩ := htrue hout
+      simp only [hout] at hf ⊢
+      have hh : (downloadChanged o fs e).ent.c.hash = e.c.hash := by rw [hent]
+      have hp : (downloadChanged o fs e).ent.c.path = e.c.path := by rw [hent]
+      obtain ⟨hfx, hrec, hcode⟩ := uploadSynced_ok o (downloadChanged o fs e).fs (downloadChanged o fs e).ent l _ (by rw [hent]) hfind hup
+      cases hu : (uploadSynced o (downloadChanged o fs e).fs (downloadChanged o fs e).ent).out with
+      | bool ub =>
+        cases ub with
+        | false => simp [hu] at hf
+        | true =>
+          have := hrec hu
+          simp only [hu, hfx, List.mem_append, List.mem_singleton, or_true, and_true]
+          exact ⟨this.1.trans hh, this.2.trans hp⟩
+      | code r => rw [hu] at hcode; simp at hcode
+      | unit => simp [hu] at hf
+      | raised x => simp [hu] at hf
+  | code r => rcases downloadChanged_out o fs e with ⟨b, hb⟩ | ⟨x, hx⟩ <;> simp_all
+  | unit => simp [hout] at hf
+  | raised x => simp [hout] at hf
+
+/-- FAILED UPLOAD KEEPS THE ENTRY PENDING (manager.py 666-693).  Whatever goes wrong in `upload_synced` — the temp file vanished,
+    FileNotFoundError, CloudFileNotFoundError, CloudFileExistsError, CloudFileNameError, or an exception that escapes — the changed
+    side is left exactly as it was (change flag, `sync_hash`, `sync_path`, `temp_file`), the temp directory is untouched, and the
+    call returns False or raises (so `handle_hash_diff` punts / `_sync_one_entry` punts), except that a name error makes the entry
+    IRRELEVANT and an upload onto a folder hands over to the split-conflict handling. -/
+theorem failed_upload_keeps_entry_pending (o : XOracle) (fs : FS) (e : XEntry) (h : o.up ≠ .ok) :
+    (uploadSynced o fs e).ent.c = e.c ∧ (uploadSynced o fs e).fs = fs ∧
+    ((uploadSynced o fs e).out = .bool true →
+      (o.up = .nameErr ∧ (uploadSynced o fs e).ent.ign = .irrelevant) ∨
+      (o.up = .exists_ ∧ o.splitRet = true ∧ XEff.split ∈ (uploadSynced o fs e).effs)) := by
+  unfold uploadSynced
+  cases ht : e.c.temp with
+  | none => simp
+  | some l =>
+    simp only
+    cases hf : fs.find l false with
+    | none => simp
+    | some b =>
+      simp only
+      cases hu : o.up <;> simp only
+      · exact absurd hu h
+      all_goals (try split_ifs)
+      all_goals simp
+
+/-- … and at the level of the transfer: unless the upload succeeded, the step is not FINISHED with the change flag or `sync_hash`
+    of the changed side touched -/
+theorem failed_transfer_keeps_flag (o : XOracle) (fs : FS) (e : XEntry) (hw : fs.wf) (hd : e.c.otype ≠ .dir) (h : o.up ≠ .ok) :
+    (transferUpload o fs e).ent.c.changed = e.c.changed ∧ (transferUpload o fs e).ent.c.syncHash = e.c.syncHash ∧
+    (transferUpload o fs e).ent.c.hash = e.c.hash := by
+  have hany := downloadChanged_any o fs e hw hd
+  have hup := failed_upload_keeps_entry_pending o (downloadChanged o fs e).fs (downloadChanged o fs e).ent h
+  unfold transferUpload
+  simp only
+  cases hout : (downloadChanged o fs e).out with
+  | bool bb =>
+    cases bb with
+    | false => simp only; exact ⟨hany.2.2.2.2.2.1, hany.2.2.2.2.1, hany.2.2.2.1⟩
+    | true =>
+      simp only
+      split <;> simp only [hup.1] <;> exact ⟨hany.2.2.2.2.2.1, hany.2.2.2.2.1, hany.2.2.2.1⟩
+  | code r => simp only; exact ⟨hany.2.2.2.2.2.1, hany.2.2.2.2.1, hany.2.2.2.1⟩
+  | unit => simp only; exact ⟨hany.2.2.2.2.2.1, hany.2.2.2.2.1, hany.2.2.2.1⟩
+  | raised x => simp only; exact ⟨hany.2.2.2.2.2.1, hany.2.2.2.2.1, hany.2.2.2.1⟩
+
+/-- RETRY AFTER A RE-EDIT UPLOADS THE NEW BYTES (sequence level).  First attempt for hash h1 — whatever happens to it (downloaded and
+    the upload failed, or punted earlier) — then the user edits the file again (the side's hash becomes h2) and the engine retries:
+    every byte string the retry hands to the provider was downloaded for h2.  The temp file left by the first attempt is never sent
+    (its md5 name no longer matches, `make_temp_file` unlinks it and picks the name for h2). -/
+theorem retry_after_reedit_uploads_new_bytes (o1 o2 : XOracle) (fs : FS) (e : XEntry) (h2 : Tag) (hw : fs.wf)
+    (hd : e.c.otype ≠ .dir) :
+    ∀ t, XEff.sent t ∈ (retryAfterReedit o1 o2 fs e h2).2.effs → t = h2 := by
+  obtain ⟨w1, ot1⟩ := transferUpload_wf o1 fs e hw hd
+  intro t ht
+  unfold retryAfterReedit at ht
+  simp only at ht
+  have := (uploaded_bytes_have_current_hash o2 (transferUpload o1 fs e).fs
+    { (transferUpload o1 fs e).ent with c := { (transferUpload o1 fs e).ent.c.setHash (some h2) with changed := true } } w1
+    (by simp only [XSide.setHash]; split_ifs <;> simpa [ot1] using hd)).1 t ht
+  simpa [XSide.setHash] using this
+
+/-- after a successful `_create_synced` — a create, or the adoption of an existing object whose hash equals the hash of our bytes
+    (manager.py 706-715) — the changed side's `sync_hash`/`sync_path` are its current hash/path, it HAS a hash, and the synced side
+    has an id and equal `hash`/`sync_hash` -/
+theorem recorded_sync_hash_after_create (o : XOracle) (fs : FS) (e e' : XEntry) (fx : List XEff)
+    (h : createInner o fs e = .done fx e') :
+    e'.c.syncHash = e.c.hash ∧ e'.c.syncPath = e.c.path ∧ e.c.hash.isSome = true ∧ e'.s.oid = true := by
+  have key : ∀ (ih ip : Option Tag) (fx0 : List XEff), recordCreate o e ih ip fx0 = .done fx e' →
+      e'.c.syncHash = e.c.hash ∧ e'.c.syncPath = e.c.path ∧ e.c.hash.isSome = true ∧ e'.s.oid = true := by
+    intro ih ip fx0 hr
+    unfold recordCreate at hr
+    cases ih with
+    | none => cases hr
+    | some hv =>
+      simp only at hr
+      split_ifs at hr with hn
+      generalize hu : updateSynced _ _ _ _ = u at hr
+      cases u with
+      | error x => cases hr
+      | ok e2 =>
+        simp only [Inner.ofUpdate] at hr
+        injection hr with _ he
+        subst he
+        have hc := updateSynced_c _ _ _ _ _ hu
+        refine ⟨by rw [hc], by rw [hc], by cases hq : e.c.hash <;> simp_all, ?_⟩
+        unfold updateSynced at hu
+        simp only at hu
+        split_ifs at hu
+        all_goals (injection hu with hu; subst hu; simp [XSide.existsTrue, XSide.setEx, XSide.setHash]; repeat' split)
+        all_goals simp
+  unfold createInner at h
+  cases ht : e.c.temp with
+  | none => simp [ht] at h
+  | some l =>
+    simp only [ht] at h
+    cases hf : fs.find l false with
+    | none => simp [hf] at h
+    | some b =>
+      simp only [hf] at h
+      cases hcr : o.cr <;> simp only [hcr] at h
+      · exact key _ _ _ h
+      · cases hap : o.atPath with
+        | none => simp [hap] at h
+        | some hv =>
+          simp only [hap] at h
+          split_ifs at h
+          exact key _ _ _ h
+      all_goals cases h
+
+/-- `finished` → `clean_temps` (manager.py 478-491): afterwards neither side's temp file exists; the directory stays well-formed -/
+theorem finished_cleans_temps (fs : FS) (e : XEntry) (hw : fs.wf) :
+    (cleanTemps fs e).wf ∧ (∀ l, e.c.temp = some l ∨ e.s.temp = some l → (cleanTemps fs e).find l false = none) := by
+  refine ⟨wf_cleanTemp _ _ (wf_cleanTemp _ _ hw), ?_⟩
+  intro l hl
+  have gone : ∀ (g : FS) (l : Loc), (g.unlink l false).find l false = none := by
+    intro g l
+    unfold FS.find
+    split
+    · simp only [FS.unlink, File.is, Option.map_eq_none_iff, List.find?_eq_none]
+      intro f hf
+      have := (List.mem_filter.mp hf).2
+      cases hq : (f.loc == l && f.part == false) <;> simp_all
+    · rfl
+  have stays : ∀ (g : FS) (l l' : Loc), g.find l false = none → (g.unlink l' false).find l false = none := by
+    intro g l l' hg
+    unfold FS.find at hg ⊢
+    rw [unlink_dirExists]
+    split at hg
+    · simp only [Option.map_eq_none_iff, List.find?_eq_none] at hg ⊢
+      rename_i hdx
+      simp only [hdx, if_true, Option.map_eq_none_iff, List.find?_eq_none]
+      intro f hf
+      exact hg f (List.mem_filter.mp hf).1
+    · rename_i hdx; simp [hdx]
+  unfold cleanTemps cleanTemp
+  rcases hl with hl | hl
+  · rw [hl]
+    cases e.s.temp with
+    | none => exact gone fs l
+    | some l' => exact stays _ _ _ (gone fs l)
+  · rw [hl]
+    cases e.c.temp with
+    | none => exact gone fs l
+    | some l' => exact gone _ l
+
+/-- `make_temp_file` is stable for a side WITH a hash: called again on its own result it keeps the name (manager.py 505-506).
+    (Without a hash every call unlinks the previous temp file and draws a new random name.) -/
+theorem make_temp_file_stable (fs fs' : FS) (c c' : XSide) (hw : fs.wf) (hd : c.otype ≠ .dir) (hh : c.hash.isSome = true)
+    (h : makeTempFile fs c = .ok (fs', c')) : makeTempFile fs' c' = .ok (fs', c') := by
+  obtain ⟨_, l, hc, hde, hname⟩ := makeTempFile_spec fs fs' c c' hw hd h
+  rcases hname with ⟨p, hv, hp, hhh, hn⟩ | ⟨hnone, _⟩
+  · subst hc
+    unfold makeTempFile
+    have hd' : (c.otype == OT.dir) = false := by simpa using hd
+    simp [hd', hp, hhh, hn, hde]
+  · rw [hnone] at hh; cases hh
+
+/-! satisfiability: a well-formed directory with a stale temp of an older hash, a file side with a newer hash -/
+example : (⟨true, true, [⟨⟨.cur, .keyed 1 1⟩, false, 1⟩], 0⟩ : FS).wf := by
+  intro f hf
+  simp at hf
+  subst hf
+  intro _
+  rfl
+
+end Xfer
 end CS.Engine
